@@ -288,6 +288,79 @@ def _judge_dtype(rng, tag):
     return out
 
 
+_LS_UID = [0]
+
+
+def gen_list_sender(rng, tag):
+    """a model whose feedback sender is a LIST of nodes: res >> [r1, r2] with res <<= [r1, r2] (documented usage)"""
+    d, T = rng.randint(1, 2), rng.randint(7, 9)
+    pts = list(range(1, T))
+    cutsets = [[1, 2], [T - 1], sorted(rng.sample(pts, 3)), sorted(rng.sample(pts, 2))]     # pieces of length one included
+    return {"kind": "list-sender", "tag": tag, "d": d, "X": scengen.rows(rng, T, d), "cutsets": cutsets,
+            "k1": rng.choice([0.5, -0.5, 0.25]), "k2": rng.choice([0.25, -0.25, 0.5]), "g1": rng.choice([0.5, -0.5]), "c2": float(rng.randint(1, 3))}
+
+
+def _judge_list_sender(sc):
+    """exactly computable custom nodes: res = x + k1*fb[r1] + k2*fb[r2]; r1 = x + g1*state (leaky accumulator); r2 = x/2 + c2.
+    One run over the whole sequence == runs over consecutive chunks (several cut sets) == successive single-step calls: outputs of both
+    readouts and the final states of the three nodes"""
+    import reservoirpy as rpy
+    rpy.verbosity(0)
+    from reservoirpy.node import Node
+    d, k1, k2, g1, c2 = sc["d"], sc["k1"], sc["k2"], sc["g1"], sc["c2"]
+    X = scen.fl(sc["X"])
+    T = len(X)
+    _n = _LS_UID           # module-wide: node names stay unique when a scenario is judged twice in one process
+
+    def init(node, x=None, **kw):
+        node.set_input_dim(x.shape[1]); node.set_output_dim(x.shape[1])
+
+    def fb_init(node, feedback=None):
+        node.set_feedback_dim(feedback.shape[1])
+
+    def rf(node, x):
+        fb = np.asarray(node.feedback()).reshape(1, -1)
+        return x + k1 * fb[:, :d] + k2 * fb[:, d:2 * d]
+
+    def build():
+        _n[0] += 1
+        pre = "c7ls%s_%d" % (sc["tag"], _n[0])
+        res = Node(forward=rf, initializer=init, fb_initializer=fb_init, name=pre + "_res")
+        r1 = Node(forward=lambda n, x: x + g1 * n.state(), initializer=init, name=pre + "_r1")
+        r2 = Node(forward=lambda n, x: x / 2 + c2, initializer=init, name=pre + "_r2")
+        model = res >> [r1, r2]
+        res <<= [r1, r2]
+        return model, (res, r1, r2)
+
+    def flat(out, nodes):
+        return np.hstack([np.asarray(out[nodes[1].name]).reshape(-1, d), np.asarray(out[nodes[2].name]).reshape(-1, d)])
+
+    def finals(nodes):
+        return [np.asarray(n.state(), dtype=float).copy() for n in nodes]
+    try:
+        mA, nA = build()
+        whole = flat(mA.run(X), nA)
+        fA = finals(nA)
+        variants = []
+        for cs in sc["cutsets"]:
+            mB, nB = build()
+            pcs = list(zip([0] + list(cs), list(cs) + [T]))
+            variants.append(("consecutive chunks cut at %s" % (list(cs),), np.vstack([flat(mB.run(X[a:b]), nB) for a, b in pcs]), finals(nB)))
+        mC, nC = build()
+        variants.append(("successive single-step calls", np.vstack([flat(mC.call(X[t:t + 1]), nC) for t in range(T)]), finals(nC)))
+    except Exception as e:  # noqa: BLE001
+        return _viol("chunking:list-sender", "model res >> [r1, r2] with res <<= [r1, r2]: whole run / chunked runs / calls raise %r" % (e,), sc)
+    for how, outs, fin in variants:
+        if outs.shape != whole.shape or not np.allclose(whole, outs, rtol=1e-12, atol=1e-12):
+            return _viol("chunking:list-sender", "model res >> [r1, r2] with feedback from the LIST [r1, r2]: %s do not give the outputs of one run over "
+                         "the whole sequence" % how, sc, whole.tolist(), outs.tolist())
+        for nm, a, b in zip(("res", "r1", "r2"), fA, fin):
+            if a.shape != b.shape or not np.allclose(a, b, rtol=1e-12, atol=1e-12):
+                return _viol("chunking:list-sender", "model res >> [r1, r2] with feedback from the LIST [r1, r2]: after %s the final state of %s differs "
+                             "from the one left by one run over the whole sequence" % (how, nm), sc, a.tolist(), b.tolist())
+    return None
+
+
 def oracle(ctx, scale=1):
     rng = ctx.rng("oracle")
     n = ctx.n(60, 600) * scale
@@ -300,9 +373,16 @@ def oracle(ctx, scale=1):
     for i in range(ns):
         out += _judge_special(rng, "%d_%d" % (ctx.seed, i))
     out += _judge_dtype(rng, "%d" % ctx.seed)
-    return {"evaluations": n + ns + 2, "violations": out,
+    nl = ctx.n(3, 20)
+    lrng = ctx.rng("oracle-list-sender")
+    for i in range(nl):
+        v = _judge_list_sender(gen_list_sender(lrng, "%d_%d" % (ctx.seed, i)))
+        if v:
+            out.append(v)
+    return {"evaluations": n + ns + 2 + nl, "violations": out,
             "rule": "whole run vs chunked runs/calls on two copies of the same real objects (outputs, final states of all nodes, a continuation run); "
-                    "ESN node; RLS/LMS nodes and a reservoir>>RLS model trained in chunks"}
+                    "ESN node; RLS/LMS nodes and a reservoir>>RLS model trained in chunks; a model res >> [r1, r2] with feedback from the list "
+                    "[r1, r2] (exact custom nodes): whole run == chunked runs (several cut sets, length-one pieces) == single-step calls"}
 
 
 def replay(payload):
@@ -312,6 +392,8 @@ def replay(payload):
     sc = payload["scenario"]
     if sc.get("kind") == "dtype":
         v = _judge_dtype(core.random.Random(0), "rp")
+    elif sc.get("kind") == "list-sender":
+        v = _judge_list_sender(sc)
     elif "X" in sc:
         v = _judge(sc)
     else:
